@@ -2308,8 +2308,19 @@ func (e *CoreExtension) filterFormat(value interface{}, args ...interface{}) (in
 		return formatString, nil
 	}
 
+	// A pointer to a number, string, slice or map is formatted as what it
+	// points to; fmt would print its memory address
+	fargs := make([]interface{}, len(args))
+	for i, arg := range args {
+		if rv := reflect.ValueOf(arg); rv.Kind() == reflect.Ptr && !rv.IsNil() &&
+			rv.Elem().Kind() != reflect.Struct && rv.Elem().Kind() != reflect.Ptr && rv.Elem().CanInterface() {
+			arg = rv.Elem().Interface()
+		}
+		fargs[i] = arg
+	}
+
 	// Apply formatting
-	return fmt.Sprintf(formatString, args...), nil
+	return fmt.Sprintf(formatString, fargs...), nil
 }
 
 // filterJsonEncode implements a filter version of the json_encode function
